@@ -4,7 +4,7 @@ Correspondence: the Coq model `Model/Ridge2Fold.v` (binary64 run of the shared s
 of the `mexp` programs, SVD factors passed as hints and re-validated inside Coq on the model's
 own fold matrices) against `skmatter.linear_model.Ridge2FoldCV` through its public API.
 The model follows the code after fixes/F06_ridge2fold_rank_cut.diff and
-fixes/F15_ridge2fold_scorer_args.diff; on a tree without them the check reports the two defects.
+fixes/F25_ridge2fold_scorer_args.diff; on a tree without them the check reports the two defects.
 """
 import math
 
@@ -20,7 +20,7 @@ FAMILIES = ["tall", "wide", "lowrank", "dupcols", "badscale", "dup_badscale", "n
 RTOL = 1e-7
 GATE = 1e-10          # float64-vs-longdouble discrepancy above which a component is not compared
 KEY_F06 = "Ridge2FoldCV final solution keeps singular directions <= rcond (n = len(s > rcond))"
-KEY_F15 = "Ridge2FoldCV passes (truth, prediction) to the scorer in exchanged roles (r2 differs)"
+KEY_F25 = "Ridge2FoldCV passes (truth, prediction) to the scorer in exchanged roles (r2 differs)"
 
 
 # ----------------------------------------------------------------------------- generation
@@ -334,7 +334,7 @@ def oracle(case, rec, splits=None, g=None):
         want = (sk_score(case["scoring"], Y[f2], X[f2] @ w1) + sk_score(case["scoring"], Y[f1], X[f1] @ w2)) / 2
         if abs(want - cvi[j]) > tol * max(abs(want), abs(cvi[j])) + a_cv * 1e4:
             swapped = (sk_score(case["scoring"], X[f2] @ w1, Y[f2]) + sk_score(case["scoring"], X[f1] @ w2, Y[f1])) / 2
-            key = KEY_F15 if abs(swapped - cvi[j]) <= tol * max(abs(swapped), abs(cvi[j])) + a_cv * 1e4 else None
+            key = KEY_F25 if abs(swapped - cvi[j]) <= tol * max(abs(swapped), abs(cvi[j])) + a_cv * 1e4 else None
             return ("cv_values_[%d] = %.12g but explicitly fitting %s(alpha=%.3g) on each fold and scoring it "
                     "on the other with %s gives %.12g%s" % (
                         j, cvi[j], case["method"], a, case["scoring"] or "neg_mean_squared_error", want,
@@ -374,7 +374,7 @@ def in_region(case, hnt, reported):
     """The case lies where a defect reported in this run acts (its effect may be below the
     oracle's tolerance but above the correspondence tolerance)."""
     X = np.array(case["X"], dtype=float)
-    if KEY_F15 in reported and case["scoring"] == "r2":
+    if KEY_F25 in reported and case["scoring"] == "r2":
         return True
     if KEY_F06 in reported and np.any(hnt[2][1] <= rcond_of(X)):
         return True
@@ -493,6 +493,14 @@ def run(ctx):
                                % ", ".join(mismatched[i]), rep, found_input=False)
     for txt in corr_broken:
         C.report_violation(ctx, "correspondence shard did not evaluate", dict(coq_output=txt), found_input=False)
+    # the refutation witness of the unrepaired behaviour (Findings/F06_ridge2fold_rank.v) must still check
+    import os
+    ffile = os.path.join(C.COQ, "Findings", "F06_ridge2fold_rank.v")
+    fok, fout, _ = C.coq_make(["Findings/F06_ridge2fold_rank.vo"])
+    fscan = C.source_scan([ffile])
+    if not fok or fscan:
+        C.report_violation(ctx, "Findings/F06_ridge2fold_rank.v (C10_rank_refuted) does not check",
+                           dict(log=fout[-1500:], scan=fscan), found_input=False)
     if not po["ok"]:
         C.report_violation(ctx, "proof obligations of Properties/C10.v not discharged",
                            dict(theorem_file="coq/Properties/C10.v", log=po["log"][-2000:], scan=po["scan"],
@@ -528,6 +536,7 @@ def run(ctx):
                traces_validated_against_impl=len(idx) - len([i for i in mismatched if i in idx]),
                samples=[slim(i) for i in idx[:2]],
                distribution=stats, anchor_drift=changed, oracle_runs=n_search,
+               findings=dict(C10_rank_refuted=bool(fok and not fscan)),
                mismatches_explained_by_reported_defect=explained,
                mismatches_total=len(mismatched), oracle_failures_unkeyed=n_found, oracle_accepts_unkeyed=n_unkeyed,
                tolerances=dict(rtol=RTOL, gate=GATE, hint_eps=2.0 ** -36))
